@@ -28,7 +28,7 @@ def run(chk, program, tier):
     sites = E.gen_enc(chk, program)
     E.round_rule(chk, program, sites)
     E.absent_enc(chk, program, sites)
-    H.sent_sign_agree(chk, program)
+    H.sent_sign_agree(chk, program, sites)
     H.enc_range_round_only(chk, program)
     E.lookup_inv(chk, program)
     chk.floor('encodable_definitions', chk.units.get('encodable_definitions', 0), 255)
